@@ -490,7 +490,10 @@ fn gen_cases(th: bool, seed: u64) -> Vec<Value> {
     for k in 0..n {
         let w = if rng.chance(2, 3) { ws[rng.usize(0, 4)] } else { ws[rng.usize(0, 10)] };
         let (f, s) = [(0x1234i64, 0xF800i64), (0x1234, -1), (-1, 0xF800), (-1, -1)][rng.usize(0, 3)];
-        let style = style_desc(f, s, w, rng.u32r(0, 2));
+        let mut style = style_desc(f, s, w, rng.u32r(0, 2));
+        if rng.chance(1, 4) {
+            style["dot"] = json!(1); // dotted stroke style
+        }
         let ang = |rng: &mut Rng| -> i32 { match rng.u32r(0, 3) { 0 => [0, 90, 180, 270, 360, -90, -360, 1080, -1080][rng.usize(0, 8)] * 16, 1 => rng.i32(-1080, 1080) * 16, _ => rng.i32(-1080 * 16, 1080 * 16) } };
         let shape = match k % 10 {
             0 => json!({"k":"rect","r":[co(&mut rng), co(&mut rng), sz(&mut rng), sz(&mut rng)]}),
